@@ -497,13 +497,13 @@ class spec_callees:
 class FlagMasks(Contract):
     """Every public flag a module exports and the properties speak about survives that module's FLAG_MASK (a flag that is silently masked
     off is ignored by every entry point).  The expected sets are written down here from the documentation, not read from the code."""
-    props = ('C01', 'C02', 'C14', 'C16', 'C17', 'C20', 'C07', 'C08')
+    props = ('C01', 'C02', 'C14', 'C16', 'C17', 'C20', 'C07', 'C08', 'C03')
     EXPECT = {
         'fnmatch': ('BRACE CASE DOTMATCH EXTMATCH FORCEUNIX FORCEWIN IGNORECASE MINUSNEGATE NEGATE NEGATEALL RAWCHARS SPLIT', ('C01', 'C17', 'C20', 'C07')),
         'glob': ('BRACE CASE DOTGLOB DOTMATCH EXTGLOB EXTMATCH FOLLOW FORCEUNIX FORCEWIN GLOBSTAR GLOBSTARLONG GLOBTILDE IGNORECASE MATCHBASE MINUSNEGATE NEGATE NEGATEALL NODIR '
-                 'NODOTDIR NOUNIQUE RAWCHARS REALPATH SPLIT', ('C02', 'C17', 'C20', 'C07')),
+                 'NODOTDIR NOUNIQUE RAWCHARS REALPATH SPLIT', ('C02', 'C17', 'C20', 'C07', 'C03')),
         'pathlib': ('BRACE CASE DOTGLOB DOTMATCH EXTGLOB EXTMATCH FOLLOW GLOBSTAR GLOBSTARLONG IGNORECASE MATCHBASE MINUSNEGATE NEGATE NEGATEALL NODIR NODOTDIR NOUNIQUE RAWCHARS '
-                    'REALPATH SPLIT', ('C16', 'C17', 'C20')),
+                    'REALPATH SPLIT', ('C16', 'C17', 'C20', 'C03')),
         'wcmatch': ('BRACE CASE DIRPATHNAME EXTMATCH FILEPATHNAME GLOBSTAR HIDDEN IGNORECASE MATCHBASE MINUSNEGATE RAWCHARS RECURSIVE SYMLINKS', ('C14', 'C17', 'C20')),
     }
 
